@@ -197,6 +197,7 @@ fn run_mem_case(c: &MemCase, src: &[u8], ctx: &mut Ctx) {
     ctx.progress(&short);
     let (fails, nf, rep) = mem_case_raw(c, src);
     ctx.res.evaluations += 1;
+    ctx.res.traces_validated += 1;
     ctx.res.transitions += (c.handles + c.order.len()) as u64;
     ctx.res.states += c.order.len() as u64 + 1;
     let mut v: Vec<(&'static str, String)> = vec![];
@@ -719,6 +720,7 @@ fn utf8_one(s: &[u8], ctx: &mut Ctx) {
     let (f, rep) = utf8_one_raw(s);
     let valid = std::str::from_utf8(s).is_ok();
     ctx.res.evaluations += 1;
+    ctx.res.traces_validated += 1;
     ctx.res.transitions += 22;
     ctx.res.states += 1;
     if ctx.verbose {
